@@ -976,11 +976,13 @@ class StubsStringGenerator:
             name_generator = result_name_generator()
 
             for result_docstring in node.result_docstrings:
+                # The generated names count all results, also the ones without a description
+                result_name = result_docstring.name if result_docstring.name else next(name_generator)
+
                 result_desc = result_docstring.description
                 if result_desc:
                     result_desc = f"\n{indentations} * ".join(result_desc.split("\n"))
 
-                    result_name = result_docstring.name if result_docstring.name else next(name_generator)
                     result_name = _convert_name_to_convention(result_name, self.naming_convention)
 
                     full_result_docstring += f"{indentations} * @result {result_name} {result_desc}\n"
